@@ -61,6 +61,61 @@ def render(env, Q, q, wrap, arity=1):
     raise core.MachineryError(wrap)
 
 
+def setop_orderby(rep, hs, tier):
+    """set operations: first UNION later ORDER BY ords (PT_Builder!SetopAliasSeq, judge J_C12S).  The aliased term of every class stands in
+    the first operand's select list, only in a later operand's, or in both, and the set operation is ordered by it."""
+    terms = [(h["cls"], h["hist"][1]["terms"][0]) for h in hs if h["pos"] == "select-item"]
+    other = {"k": "fld", "src": "T1", "n": "c", "al": "alx"}
+    plain = {"k": "fld", "src": "T1", "n": "a"}
+    shapes = {"setop-orderby-first": lambda t: ([plain, t], [plain, other], [t]),
+              "setop-orderby-later": lambda t: ([plain, other], [plain, t], [t]),
+              "setop-orderby-both": lambda t: ([t, other], [t, plain], [other, t])}
+    events, meta = [], []
+    for d, Q in core.query_classes().items():
+        ld = core.lex_dialect(d)
+        for cls, t in terms:
+            if cls == "Subquery":
+                continue
+            for sname, mk in shapes.items():
+                for op in (("union",) if tier == "quick" else ("union", "intersect", "union_all")):
+                    first, later, ords = mk(t)
+                    env = execb.Env(Q)
+                    T1 = env.src["T1"]
+                    exc, text = "", ""
+                    try:
+                        q1 = Q.from_(T1).select(*[env.term(x) for x in first])
+                        q2 = Q.from_(T1).select(*[env.term(x) for x in later])
+                        text = str(getattr(q1, op)(q2).orderby(*[env.term(x) for x in ords]))
+                    except Exception as ex:  # noqa
+                        exc = type(ex).__name__
+                    toks = lexer.lex(text, ld)
+                    # operands: the bracketed SELECTs, or (no wrapping: MySQL) the stretches between the set-operation words; tail: after the last ORDER BY at depth 0
+                    words = [k for k, tk in enumerate(toks) if tk["t"] == "word" and tk["d"] == 0 and tk["v"] in ("UNION", "INTERSECT", "EXCEPT", "MINUS")]
+                    ob = [k for k, tk in enumerate(toks) if tk["t"] == "word" and tk["d"] == 0 and tk["v"] == "ORDER" and (not words or k > words[-1])]
+                    tail = toks[ob[-1]:] if ob else []
+                    body = toks[:ob[-1]] if ob else toks
+                    ops = proj.nested_selects(body) if body and body[0]["v"] == "(" else ([body[:words[0]], body[words[-1] + 1:]] if words else [body])
+                    al = [x for o in ops for x in proj.alias_seq(o) if x[0] == "SELECT"] + \
+                         [["ORDER BY", tk["v"]] for k, tk in enumerate(tail) if tk["t"] == "id" and tk["v"] in proj.ALIASES and not (k + 1 < len(tail) and tail[k + 1]["v"] == ".")]
+                    if not exc and len(ops) != 2:
+                        raise core.MachineryError(f"set operation not split into two operands: {text}")
+                    events.append({"tid": len(events), "d": d, "first": first, "later": later, "ords": ords, "exc": exc, "aliases": al})
+                    meta.append((d, {"cls": cls, "pos": sname, "op": op}, text))
+    results = tlc.judge_shards("J_C12SGen", "CONSTANT SrcTab <- G_SrcTab\nINIT Init\nNEXT Next\n", events, shard=max(300, len(events) // 8 + 1),
+                               heap="3g", extra_files={"J_C12SGen.tla": gen("J_C12S")}, timeout=1500)
+    rep.add_tlc(results)
+    if sum(max(x.distinct - 1, 0) for x in results) != len(events):
+        raise core.MachineryError("J_C12S did not consume every event")
+    for res in results:
+        for v in res.json_tagged("V"):
+            d, h, text = meta[v["tid"]]
+            for fault, clause, alias in sorted(v["bad"]):
+                rep.discrepancy([[h["cls"], h["pos"], fault, clause, "any-dialect"]],
+                                {"dialect": d, "class": h["cls"], "position": h["pos"], "operation": h["op"], "sql": text, "expected": v["want"], "observed": events[v["tid"]]["aliases"]},
+                                what=f"alias {fault} in {clause or 'statement'} of a set operation")
+    return events, meta
+
+
 def run(tier: str) -> int:
     rep = core.Report("C12", tier)
     execb.Env(core.query_classes()["generic"])
@@ -120,9 +175,11 @@ def run(tier: str) -> int:
     rep.add_tlc(results)
     if sum(max(x.distinct - 1, 0) for x in results) != len(events):
         raise core.MachineryError("J_C12 did not consume every event")
-    rep.traces = len(events)
-    rep.evaluations = len(events)
-    rep.distinct = {(m[1]["cls"], m[1]["pos"]) for m in meta}
+    sevents, smeta = setop_orderby(rep, hs, tier)
+    rep.traces = len(events) + len(sevents)
+    rep.evaluations = rep.traces
+    rep.distinct = {(m[1]["cls"], m[1]["pos"]) for m in meta + smeta}
+    rep.extra["set_operation_orderby_programs"] = len(sevents)
     rep.extra["term_classes_not_reached"] = term_classes_uncovered()
     for res in results:
         for v in res.json_tagged("V"):
